@@ -557,6 +557,69 @@ def run_search_loop(cell, spec, max_evals, objs):
             pass
 
 
+def run_cell(args):
+    """run one cell against the real code (in a worker process); returns a JSON-able record"""
+    from threadpoolctl import threadpool_limits
+
+    with threadpool_limits(limits=1):  # OpenMP/BLAS pools make tiny fits 100x slower when oversubscribed
+        return _run_cell1(args)
+
+
+def _run_cell1(args):
+    import time
+
+    t0 = time.time()
+    rec = _run_cell2(args)
+    rec["secs"] = round(time.time() - t0, 2)
+    return rec
+
+
+def _run_cell2(args):
+    cell, spec, script, mode = args
+    quiet()
+    if mode == "search":
+        objs = [o for st in script for o in st["objs"]] or [0.0]
+        out = run_search_loop(cell, spec, max_evals=min(12, 2 + sum(st["n"] for st in script) // 2), objs=objs)
+        names = out["names"] or []
+        rec = {"mode": "search", "names": names, "error": out["error"], "not_accepted": out["not_accepted"],
+               "rounds": [{"n": len(out["seen"]), "askDraws": [], "X": [[d.get(nm) for nm in names] for d in out["seen"]],
+                           "X_dicts_ok": all(sorted(d) == sorted(names) for d in out["seen"]),
+                           "hasTell": False, "results": [], "tellDraws": []}] if out["seen"] else []}
+        problem = build_problem(spec)
+    else:
+        rec = run_session(cell, spec, script)
+        rec["mode"] = "asktell"
+        problem = rec.pop("problem", None) or build_problem(spec)
+    surrogate = cell.get("surrogate") if cell["search"] == "CBO" else ("DUMMY" if cell["search"] == "EDS" else None)
+    try:
+        rec["decl"] = decl_of(spec, problem, surrogate)
+    except Exception as e:  # unknown surrogate names never get here (constructor rejects first)
+        rec["decl"] = decl_of(spec, problem, None)
+        rec["decl_note"] = f"{type(e).__name__}: {e}"
+    rec.pop("problem", None)
+    # make everything JSON-able / picklable
+    for r in rec["rounds"]:
+        r["X"] = [[plain(v) for v in x] for x in r["X"]]
+        r["askDraws"] = [[[plain(v) for v in c] for c in d] for d in r["askDraws"]]
+        r["tellDraws"] = [[[plain(v) for v in c] for c in d] for d in r["tellDraws"]]
+        r["results"] = [([plain(v) for v in x], o) for x, o in r["results"]]
+    return rec
+
+
+
+def run_cells(ck, cells):
+    """run the cells against the real code in a pool of worker processes (each cell carries its
+    own seed, so the result does not depend on the scheduling)"""
+    import concurrent.futures as cf
+    import os
+
+    workers = int(os.environ.get("VERIF_WORKERS", "0") or 0) or ck.pick(8, 14)
+    if workers <= 1 or len(cells) <= 2:
+        return [run_cell(c) for c in cells]
+    with cf.ProcessPoolExecutor(max_workers=workers) as ex:
+        return list(ex.map(run_cell, cells, chunksize=max(1, len(cells) // (workers * 6))))
+
+
 def classify_obj(obj):
     """how `CBO._tell` reads an objective"""
     import numbers
@@ -665,6 +728,8 @@ def shrink_case(cell, spec, script, still_fails, budget=14):
         s2["conds"] = []
         if ok(cell, s2, script):
             spec = s2
+    if spec != BASE_SPEC and ok(cell, BASE_SPEC, script):
+        spec = copy.deepcopy(BASE_SPEC)
     for h in list(spec["hps"]):
         if len(spec["hps"]) <= 1:
             break
@@ -695,13 +760,10 @@ def _forb_hps(f):
     return [f["hp"]]
 
 
-def option_tags(cell, spec):
-    """The minimal option values / input class of a (shrunk) case, for the fingerprint."""
-    tags = []
-    if cell["search"] == "CBO":
-        for key in ["surrogate", "acq", "strategy", "design", "filter_failures"]:
-            if cell.get(key, BASELINE[key]) != BASELINE[key]:
-                tags.append(f"{key}={cell[key]}")
+BASE_SPEC = {"hps": [{"name": "h0", "kind": "float", "lo": 0.0, "hi": 1.0, "log": False}], "conds": [], "forbs": []}
+
+
+def spec_kinds(spec):
     kinds = set()
     for h in spec["hps"]:
         if h["kind"] in ("int", "float"):
@@ -709,13 +771,76 @@ def option_tags(cell, spec):
         elif h["kind"] == "cat":
             kinds.add("cat-" + ("bool" if isinstance(h["choices"][0], bool) else "str"))
         elif h["kind"] == "ord":
-            kinds.add("ord-" + ("int" if isinstance(h["choices"][0], int) else "float"))
+            kinds.add("ord-" + ("int" if isinstance(h["choices"][0], int) and not isinstance(h["choices"][0], bool) else "float"))
         else:
             kinds.add("const")
-    if len(spec["hps"]) <= 2:
-        tags.append("dims=" + "+".join(sorted(kinds)))
-    if spec["conds"]:
+    return kinds
+
+
+def requirements(cell, spec, option_keys=("surrogate", "acq", "strategy", "design", "filter_failures"), base=None):
+    """What a (shrunk) failing case still needs in order to fail: the option values that could
+    not be reset to the baseline and the input class of the problem."""
+    base = base or BASELINE
+    req = {"options": {}, "kinds": [], "conditions": bool(spec["conds"]), "forbidden": bool(spec["forbs"])}
+    if cell["search"] != "CBO":
+        req["options"]["search"] = cell["search"]
+    if cell["search"] == "CBO":
+        for key in option_keys:
+            if cell.get(key, base[key]) != base[key]:
+                req["options"][key] = cell[key]
+    if spec != BASE_SPEC:
+        req["kinds"] = sorted(spec_kinds(spec))
+    return req
+
+
+def satisfies(cell, spec, req, base=None):
+    base = base or BASELINE
+    for k, v in req["options"].items():
+        if cell.get(k, base.get(k, "CBO" if k == "search" else None)) != v:
+            return False
+    if req["kinds"] and not set(req["kinds"]) <= spec_kinds(spec):
+        return False
+    if req["conditions"] and not spec["conds"]:
+        return False
+    if req["forbidden"] and not spec["forbs"]:
+        return False
+    return True
+
+
+def req_tags(req):
+    tags = [f"{k}={v}" for k, v in req["options"].items()]
+    if req["kinds"]:
+        tags.append("dims=" + "+".join(req["kinds"]))
+    if req["conditions"]:
         tags.append("conditions")
-    if spec["forbs"]:
+    if req["forbidden"]:
         tags.append("forbidden")
     return ",".join(tags) if tags else "baseline"
+
+
+def fingerprint_groups(groups, shrink_job, max_workers=8, max_iters=5, sat=None, fallback=None):
+    """groups: {base key: [failing cases (dict with cell/spec/script/mode...)]}.
+    Repeatedly shrinks the first unexplained case of every group (in parallel); the minimal
+    requirements found explain every other case of the group that has them.  Returns a list of
+    (base key, requirements, shrunk case, [explained cases])."""
+    import concurrent.futures as cf
+
+    out = []
+    remaining = {k: list(v) for k, v in groups.items()}
+    for _ in range(max_iters):
+        jobs = [(k, v[0]) for k, v in remaining.items() if v]
+        if not jobs:
+            break
+        with cf.ProcessPoolExecutor(max_workers=max(1, min(len(jobs), max_workers))) as ex:
+            results = list(ex.map(shrink_job, jobs))
+        for (k, first), (req, shrunk) in zip(jobs, results):
+            sat_ = sat or (lambda c, r: satisfies(c["cell"], c["spec"], r))
+            expl = [c for c in remaining[k] if c is first or sat_(c, req)]
+            remaining[k] = [c for c in remaining[k] if not any(c is e for e in expl)]
+            out.append((k, req, shrunk, expl))
+    for k, v in remaining.items():  # not reached in practice: fall back on the unshrunk options
+        for c in v:
+            out.append((k, (fallback or (lambda c: requirements(c["cell"], c["spec"])))(c), c, [c]))
+    return out
+
+
